@@ -64,6 +64,11 @@ func (b *Bounds) extendPointss(pointss []Path) {
 
 // Overlaps returns whether b and b2 overlap.
 func (b *Bounds) Overlaps(b2 *Bounds) bool {
+	if b.Empty() || b2.Empty() {
+		// An empty box shares no point with anything, not even with an
+		// unbounded box whose infinite corners equal the empty sentinel's.
+		return false
+	}
 	return b.Min.X <= b2.Max.X && b.Min.Y <= b2.Max.Y && b.Max.X >= b2.Min.X && b.Max.Y >= b2.Min.Y
 }
 
